@@ -7,7 +7,7 @@ ASSUME PrintT("CLAUSE C04.AllOpen " \o ToString(AllOpen))
 ASSUME PrintT("CLAUSE C04.LevelShared " \o ToString(LevelShared))
 ASSUME PrintT("CLAUSE C04.McastToLevel " \o ToString(McastToLevel))
 ASSUME PrintT("CLAUSE drift.PhysAddrAgreesWithSpec " \o ToString(SpecAgrees))
-McOk(i, l) == (Level(T.addrs[i]) = l /\ l = 0) \/ T.mc[i][l + 1] = LvlA(l)
+McOk(i, l) == (T.addrs[i] = 0 /\ l = 0) \/ ~HasLevel(l) \/ T.mc[i][l + 1] = LvlA(l)
 ASSUME PrintT("DETAIL badmc " \o ToString({<<T.addrs[x[1]], x[2]>> : x \in {y \in McSrc \X (0..4) : T.mcast /\ ~McOk(y[1], y[2])}}))
 SInit == si = 0 /\ di = 0 /\ ci = 0 /\ nh = 0
 SNext == UNCHANGED tvars
